@@ -42,6 +42,11 @@ pub struct Spec {
     pub split_load_delta: u64,
     /// an allocated, non-executable PROGBITS section (.rodata) placed before .text
     pub rodata_first: bool,
+    /// zero padding in the FILE in front of .dynstr (only with a split load): lets the second PT_LOAD
+    /// have a file offset larger than its virtual address
+    pub dynstr_pad: usize,
+    /// with a split load: vaddr = file offset - delta instead of + delta (needs dynstr_pad >= delta)
+    pub split_load_neg: bool,
 }
 
 impl Default for Spec {
@@ -59,6 +64,8 @@ impl Default for Spec {
             note_align: 4,
             abi_note_first: false,
             split_load_delta: 0,
+            dynstr_pad: 0,
+            split_load_neg: false,
             rodata_first: false,
         }
     }
@@ -159,6 +166,8 @@ pub fn build(spec: &Spec) -> Built {
     let ndyn = 2 + spec.soname.is_some() as usize + 1; // [SONAME], STRTAB, STRSZ, NULL
     let dyn_len = ndyn * 2 * ws;
     cur += dyn_len;
+    let pad_start = cur;
+    cur += spec.dynstr_pad;
     // dynstr
     let dynstr_off = cur;
     let mut dynstr = vec![0u8];
@@ -221,23 +230,23 @@ pub fn build(spec: &Spec) -> Built {
         }
     };
     if spec.split_load_delta != 0 {
-        ph(&mut w, "ph_load", 1, 7, 0, dynstr_off, 0x1000);
-        // second segment: file offset dynstr_off, vaddr shifted by delta
-        let d = spec.split_load_delta;
+        ph(&mut w, "ph_load", 1, 7, 0, if spec.dynstr_pad > 0 { pad_start } else { dynstr_off }, 0x1000);
+        // second segment: file offset dynstr_off, vaddr shifted by delta (up, or down when split_load_neg)
+        let d = if spec.split_load_neg { spec.split_load_delta.wrapping_neg() } else { spec.split_load_delta };
         if is64 {
             w.put("ph_load2.p_type", 4, 1);
             w.put("ph_load2.p_flags", 4, 5);
             w.put("ph_load2.p_offset", 8, dynstr_off as u64);
-            w.put("ph_load2.p_vaddr", 8, va(dynstr_off) + d);
-            w.put("ph_load2.p_paddr", 8, va(dynstr_off) + d);
+            w.put("ph_load2.p_vaddr", 8, va(dynstr_off).wrapping_add(d));
+            w.put("ph_load2.p_paddr", 8, va(dynstr_off).wrapping_add(d));
             w.put("ph_load2.p_filesz", 8, (total - dynstr_off) as u64);
             w.put("ph_load2.p_memsz", 8, (total - dynstr_off) as u64);
             w.put("ph_load2.p_align", 8, 0x1000);
         } else {
             w.put("ph_load2.p_type", 4, 1);
             w.put("ph_load2.p_offset", 4, dynstr_off as u64);
-            w.put("ph_load2.p_vaddr", 4, va(dynstr_off) + d);
-            w.put("ph_load2.p_paddr", 4, va(dynstr_off) + d);
+            w.put("ph_load2.p_vaddr", 4, va(dynstr_off).wrapping_add(d));
+            w.put("ph_load2.p_paddr", 4, va(dynstr_off).wrapping_add(d));
             w.put("ph_load2.p_filesz", 4, (total - dynstr_off) as u64);
             w.put("ph_load2.p_memsz", 4, (total - dynstr_off) as u64);
             w.put("ph_load2.p_flags", 4, 5);
@@ -320,11 +329,12 @@ pub fn build(spec: &Spec) -> Built {
         w.put("dyn_soname.d_val", ws, soname_off as u64);
     }
     w.put("dyn_strtab.d_tag", ws, 5);
-    w.put("dyn_strtab.d_val", ws, va(dynstr_off) + spec.split_load_delta);
+    w.put("dyn_strtab.d_val", ws, va(dynstr_off).wrapping_add(if spec.split_load_neg { spec.split_load_delta.wrapping_neg() } else { spec.split_load_delta }));
     w.put("dyn_strsz.d_tag", ws, 10);
     w.put("dyn_strsz.d_val", ws, dynstr.len() as u64);
     w.put("dyn_null.d_tag", ws, 0);
     w.put("dyn_null.d_val", ws, 0);
+    w.raw(&vec![0u8; spec.dynstr_pad]);
     assert_eq!(w.b.len(), dynstr_off);
     w.raw(&dynstr);
     w.raw(&rodata);
